@@ -172,7 +172,9 @@ class A(Adapter):
         placed = np.asarray(ps.placed_blocks).astype(bool).copy()
         nb = blocks.shape[0]
         piece = _rot(blocks[b], k)
-        ok = (not placed[b]) and not ((grid[r:r + 3, c:c + 3] != 0) & (piece != 0)).any()
+        window = grid[r:r + 3, c:c + 3] if (r >= 0 and c >= 0) else grid[:0, :0]
+        # a block whose 3x3 window does not lie inside the grid does not fit: an illegal placement, like an overlap
+        ok = (not placed[b]) and window.shape == (3, 3) and not ((window != 0) & (piece != 0)).any()
         if ok:
             grid = grid + _stamp(grid.shape, piece, r, c)
             placed[b] = True
